@@ -65,6 +65,10 @@ func Cast(ctx *runtime.Task, funcExpr *ast.CallExpr) *errchain.PlError {
 		return nil
 	}
 
+	if selfContaining(v.Value) {
+		return runtime.NewRunError(ctx, errSelfContaining, funcExpr.Param[0].StartPos())
+	}
+
 	val, dtype := doCast(v.Value, castType)
 	if err = addKey2PtWithVal(ctx.InData(), key, val, dtype,
 		input.KindPtDefault); err != nil {
